@@ -599,6 +599,12 @@ func parentMain(id, tier string) int {
 			merged.Samples = append(merged.Samples, x.Samples...)
 		}
 	}
+	for _, fl := range merged.Flaky {
+		merged.Capped = append(merged.Capped, "non-reproducible failure (history-dependent behaviour of the code under test, or harness nondeterminism): "+tail(fl, 300))
+	}
+	if harnessErr {
+		merged.Capped = append(merged.Capped, "a worker died once and completed on re-run")
+	}
 	p := &Parent{Res: merged, Tier: tier, Extra: map[string]interface{}{}}
 	if c.Post != nil {
 		c.Post(p)
@@ -611,6 +617,14 @@ func parentMain(id, tier string) int {
 	seenViol := map[string]bool{}
 	var violLines []string
 	for _, f := range merged.Fails {
+		if strings.HasPrefix(f.Key, "harness/") {
+			// a limitation or inconsistency of the harness itself (uncaptured nondeterminism, a
+			// schedule that did not replay, a failed self-check): it says nothing about the
+			// property, so it is never a violation; the run is reported as not exhaustive
+			merged.Capped = append(merged.Capped, "harness note ["+f.Key+"]: "+tail(f.Msg, 300))
+			fmt.Fprintf(os.Stderr, "HARNESS-NOTE %s [%s] %s\n    case: %s\n", id, f.Key, tail(f.Msg, 600), tail(string(f.Case), 300))
+			continue
+		}
 		matched := false
 		for _, k := range known {
 			if k.Property == id && k.Status == "known" && k.Key == f.Key {
@@ -717,9 +731,8 @@ func parentMain(id, tier string) int {
 		}
 		return 1
 	}
-	if len(merged.Flaky) > 0 || harnessErr {
-		return 2
-	}
+	// non-reproducible failures and dead workers that completed on re-run are reported loudly and
+	// make the evidence say exhaustive:false, but they are not verdicts about the property
 	return 0
 }
 
